@@ -12,3 +12,7 @@ let dec_argv a = Stdlib.List.map dec_units (String.split_on_char ',' a)
 let enc_units l = if l = [] then "-" else String.concat "." (Stdlib.List.map (fun n -> string_of_int (int_of_n n)) l)
 let enc_argv a = String.concat "," (Stdlib.List.map enc_units a)
 let b2s b = if b then "1" else "0"
+let dec_env e = if e = "none" then [] else
+  Stdlib.List.map (fun kv -> match String.split_on_char '=' kv with
+      | [k; v] -> (dec_units k, dec_units v)
+      | _ -> failwith "env") (String.split_on_char ',' e)
